@@ -26,6 +26,7 @@ from .execution import (
     check_abort_no_retry,
     check_breaker,
     classify_for_breaker,
+    emit_admission_event,
     ensure_settled,
     make_attempt_context,
     record_cancel,
@@ -216,7 +217,7 @@ class Policy:
         # Circuit breaker check
         if ctx.breaker is not None:
             decision = ctx.breaker.allow()
-            ctx.emit_breaker_event(decision.event, decision.state)
+            emit_admission_event(ctx, decision)
             if not decision.allowed:
                 return build_circuit_open_outcome(ctx, decision.state.value)
 
